@@ -819,10 +819,17 @@ def seed_entropy(seed: int) -> None:
     _ENTROPY_ACTIVE = True
 
 
+UUID_LOG: dict = {}  # uuid -> (global seq, sim thread id) at creation, while a simulation is active
+
+
 def v_uuid4():
     if not _ENTROPY_ACTIVE:
         return REAL["uuid4"]()
-    return _uuid_mod.UUID(int=_ENTROPY.getrandbits(128), version=4)
+    u = _uuid_mod.UUID(int=_ENTROPY.getrandbits(128), version=4)
+    s = _sched_for_me()
+    if s is not None:
+        UUID_LOG[u] = (s.next_seq(), s.current.sid)
+    return u
 
 
 def v_urandom(n: int) -> bytes:
